@@ -59,8 +59,92 @@ def smoke(case, sizes):
     return replay_c(case.src, 'kern', sizes, {}, files)
 
 
+TMOD = """
+module tmod
+  use iso_fortran_env, only: real64
+  implicit none
+  type pt
+    integer :: k
+    real(kind=real64) :: w
+    real(kind=real64) :: v(3)
+  end type pt
+end module tmod
+"""
+
+DT_KERNELS = [
+    ('struct-inout-and-out', """
+subroutine kern(n, a, pio, pout, s)
+  use iso_fortran_env, only: real64
+  use tmod, only: pt
+  integer, intent(in) :: n
+  real(kind=real64), intent(inout) :: a(n)
+  type(pt), intent(inout) :: pio
+  type(pt), intent(out) :: pout
+  real(kind=real64), intent(out) :: s
+  integer :: i
+  do i=1,n
+    a(i) = a(i) + pio%w
+  end do
+  pio%k = pio%k + 1
+  pout%k = n
+  pout%w = pio%w*2.0
+  pout%v(1) = pio%v(3)
+  pout%v(2) = pio%v(1)
+  pout%v(3) = 0.5
+  s = pio%v(3)
+end subroutine kern
+"""),
+    ('struct-out-only', """
+subroutine kern(i1, x, pout)
+  use iso_fortran_env, only: real64
+  use tmod, only: pt
+  integer, intent(in) :: i1
+  real(kind=real64), intent(in) :: x
+  type(pt), intent(out) :: pout
+  pout%k = i1 + 1
+  pout%w = x*2.0
+  pout%v(1) = x
+  pout%v(2) = 1.5
+  pout%v(3) = -x
+end subroutine kern
+"""),
+    ('struct-intent-in', """
+subroutine kern(pin, pio, s)
+  use iso_fortran_env, only: real64
+  use tmod, only: pt
+  type(pt), intent(in) :: pin
+  type(pt), intent(inout) :: pio
+  real(kind=real64), intent(out) :: s
+  pio%k = pio%k + pin%k
+  pio%w = pin%w
+  s = pin%v(3) + pio%v(1)
+end subroutine kern
+"""),
+]
+
+
+def _custom_wrapper(case, sizes):
+    """the marshalling of the generated ISO-C wrapper, with the kernel abstracted by a nondeterministic stub"""
+    from vlib.cwrap import check_wrapper  # pylint: disable=import-outside-toplevel
+    r = check_wrapper(case.src, 'kern', sizes)
+    r['changed'] = True
+    files = r.pop('files', {})
+    wrapper = r.pop('wrapper', '')
+    if r['verdict'] == 'sat':
+        try:
+            rep, msg = replay_c(case.src, 'kern', sizes, {}, files)
+        except Exception as ex:  # pylint: disable=broad-except
+            rep, msg = None, f'replay crashed: {type(ex).__name__}: {ex}'
+        r['replayed'], r['replay_msg'] = rep, msg
+        r['transformed'] = wrapper[-1500:]
+    return r
+
+
 def cases():
     out = []
+    for name, ksrc in DT_KERNELS:
+        out.append(Case(f'wrapper-dtype/{name}', TMOD + ksrc, 'kern', [{'n': 3}], None, 'iso-c-wrapper', must_change=False,
+                        custom=_custom_wrapper))
     for t in C36.T + EXTRA:
         group, name, args, body = t[:4]
         local = t[4] if len(t) > 4 else ''
@@ -69,4 +153,7 @@ def cases():
             sizes = t[5]
         out.append(Case(f'{group}/{name}', C36.kern(args, body, local), 'kern', sizes, None, 'transpile-c', must_change=False,
                         unwind=5, custom=_custom))
+        # the same kernel: marshalling of its arguments by the generated wrapper (kernel = nondeterministic stub)
+        out.append(Case(f'wrapper/{group}/{name}', C36.kern(args, body, local), 'kern', sizes[:1], None, 'iso-c-wrapper',
+                        must_change=False, custom=_custom_wrapper))
     return out
